@@ -76,7 +76,36 @@ pub fn near_miss(prog: &Program, rng: &mut Rng) -> (Program, &'static str) {
 
 pub fn label_variant(label: &[u8], rng: &mut Rng) -> (Vec<u8>, &'static str) {
     let mut l = label.to_vec();
-    match rng.below(4) {
+    match rng.below(8) {
+        4 => {
+            l.push(0);
+            (l, "label_nul_appended")
+        }
+        5 if l.len() > 1 => {
+            // same prefix, different last byte
+            let k = l.len() - 1;
+            l[k] = l[k].wrapping_add(1);
+            (l, "label_last_byte_changed")
+        }
+        6 => {
+            // same first 32+ bytes, longer
+            while l.len() < 33 {
+                l.push(b'a');
+            }
+            l.push(rng.below(256) as u8);
+            (l, "label_long_extension")
+        }
+        7 if !l.is_empty() => {
+            // trailing NULs stripped / NUL replaced
+            while l.last() == Some(&0) {
+                l.pop();
+            }
+            if l == label {
+                l.push(0);
+                l.push(0);
+            }
+            (l, "label_trailing_nul_changed")
+        }
         0 if !l.is_empty() => {
             let i = rng.usize(l.len());
             l[i] ^= 1 << rng.below(8);
@@ -235,6 +264,33 @@ pub fn run(ctx: &mut RunCtx) -> Result<(), Violation> {
                 if d.accepted() {
                     ctx.note("near_miss", J::s(format!("{}: {}", what, crate::program::describe(&prog2))));
                     return Err(Violation::new("I-integrity", format!("proof accepted by the verifier of a different circuit ({})", what)));
+                }
+                // the misrouted proof with the vector adapted to the other circuit's length:
+                // zero entries dropped or inserted at every position
+                let want = node2.rm.pi_rows.len();
+                let mut adapted: Vec<Vec<BlsScalar>> = Vec::new();
+                if want + 1 == m.pi.len() {
+                    for i in 0..m.pi.len() {
+                        let mut v = m.pi.clone();
+                        v.remove(i);
+                        adapted.push(v);
+                    }
+                } else if want == m.pi.len() + 1 {
+                    for i in 0..=m.pi.len() {
+                        let mut v = m.pi.clone();
+                        v.insert(i, BlsScalar::zero());
+                        adapted.push(v);
+                    }
+                }
+                for v in adapted.into_iter().take(6) {
+                    let m2 = Msg { proof: m.proof.clone(), pi: v, version: m.version };
+                    let env_v = ctx.env(&mut s);
+                    ctx.st.fault("chan.misroute+pi_adapted");
+                    let d = deliver(ctx, &node2, &m2, m2.version, &env_v)?;
+                    ctx.st.eval(sig ^ digest(what.as_bytes()) ^ 0x56 ^ (m2.pi.len() as u64) << 12, true);
+                    if d.accepted() {
+                        return Err(Violation::new("I-integrity", format!("proof accepted by the verifier of a different circuit ({}) with an adapted public-input vector", what)));
+                    }
                 }
             }
         }
